@@ -5,6 +5,7 @@ import Mimium.Proofs.FlatTreeEval
 import Mimium.Proofs.FlatTreeVisits
 import Mimium.Proofs.PublishOk
 import Mimium.Proofs.PublishPrune
+import Mimium.Proofs.PublishMono
 /-!
 # C05 — compile-time state layout matches run-time state accesses
 
@@ -502,5 +503,56 @@ theorem C05_published_same_words_same_eval_future (fuel n : Nat) (P : Prog) (d :
 theorem C05_publishFn_is_depth_instance (P : Prog) (d : FnDecl) (e : Expr) :
     publishFn P d = publishFnN P.fns.length P d ∧ publishE P e = publishEN P.fns.length P e ∧
     noStateInArms P e = noStateInArmsN P.fns.length P e := ⟨rfl, rfl, rfl⟩
+
+/-- **the call depth is irrelevant once it suffices**: a layout computed at depth `n` is the layout at every depth
+`m ≥ n`, and membership in the class persists (so the theorems above, stated for every `n`, speak about one layout) -/
+theorem C05_publish_depth_irrelevant (P : Prog) (n m : Nat) (hnm : n ≤ m) :
+    (∀ d lay, publishFnN n P d = some lay → publishFnN m P d = some lay) ∧
+    (∀ e seg, publishEN n P e = some seg → publishEN m P e = some seg) ∧
+    (∀ e, noStateInArmsN n P e = true → noStateInArmsN m P e = true) := publish_depth_mono P n m hnm
+
+/-! non-vacuity of the five theorems above.  `f(y) = mem(y)`, `g(y) = y*2` (no state), `c() = self + g(1)` and
+`dsp(x) = self + mem(x) + f(delay(3, x, 1)) + g(c()) + (if x then (|q| mem(q))(1) else 2)` with a one-word tuple `self`:
+the published labelled layout has a mem, a delay, a child with a mem, a child with `self` and a zero-sized grandchild (the
+call of `g`), and a zero-sized child (the call of `g`); the bare skeleton drops the two zero-sized ones; the lambda's `mem`
+is not published here; the program is in the class -/
+example :
+    let fF : FnDecl := ⟨"f", ["y"], .mem (.var "y") 0, none⟩
+    let gF : FnDecl := ⟨"g", ["y"], .bin .mul (.var "y") (.lit 2), none⟩
+    let cF : FnDecl := ⟨"c", [], .bin .add .self (.call "g" [.lit 1] 0), some .num⟩
+    let dspF : FnDecl := ⟨"dsp", ["x"],
+      .bin .add .self (.bin .add (.mem (.var "x") 0)
+        (.bin .add (.call "f" [.delay 3 (.var "x") (.lit 1) 1] 2)
+          (.bin .add (.call "g" [.call "c" [] 3] 4)
+            (.ite (.var "x") (.app (.lam ["q"] (.mem (.var "q") 7)) [.lit 1]) (.lit 2))))), some (.tup [.num])⟩
+    let P : Prog := ⟨[], [fF, gF, cF], dspF⟩
+    let lay : LNode := ⟨some (.tup [.num]),
+      [.mem 0, .delay 1 3, .child 2 none [.mem 0], .child 3 (some .num) [.child 0 none []], .child 4 none []]⟩
+    publishFn P dspF = some lay ∧ noStateInArms P dspF.body = true ∧ SitesUnique P ∧ SitesOk dspF.body ∧
+    publishedSk lay = .fn [.feed 1, .mem 1, .delay 3, .fn [.mem 1], .fn [.feed 1]] ∧
+    lay.sk = .fn [.feed 1, .mem 1, .delay 3, .fn [.mem 1], .fn [.feed 1, .fn []], .fn []] := by
+  intro fF gF cF dspF P lay
+  refine ⟨rfl, rfl, ?_, ?_, rfl, rfl⟩
+  · intro d hd
+    simp only [P, List.mem_cons, List.not_mem_nil, or_false] at hd
+    rcases hd with rfl | rfl | rfl <;> simp [SitesOk, siteLens, siteLensL, fF, gF, cF]
+  · simp [SitesOk, siteLens, siteLensL, dspF]
+
+/-- **outside the class the layout is not visited (finding F3, model level).**  `counter() = self + 1`,
+`dsp() = if (now > 2) counter() else counter()*100`: mirgen publishes ONE child (the `then` arm's, the sizes tie), the
+class predicate is false, and no layout whatsoever is visited in order by this body — the reference semantics keeps
+two instances of `counter` (one per call site), the published storage has room for one -/
+theorem C05_state_in_arms_not_visited :
+    let counterF : FnDecl := ⟨"counter", [], .bin .add .self (.lit 1), some .num⟩
+    let dsp : FnDecl := ⟨"dsp", [],
+      .ite (.bin .gt .now (.lit 2)) (.call "counter" [] 1) (.bin .mul (.call "counter" [] 2) (.lit 100)), none⟩
+    let P : Prog := ⟨[], [counterF], dsp⟩
+    publishFn P dsp = some ⟨none, [.child 1 (some .num) []]⟩ ∧ noStateInArms P dsp.body = false ∧
+    ∀ seg, ¬ Visits P dsp.body seg := by
+  intro counterF dsp P
+  refine ⟨rfl, rfl, ?_⟩
+  intro seg h
+  cases h with
+  | ite _ ha _ => exact visits_call_ne_nil ha
 
 end Mimium.Publish
